@@ -22,12 +22,18 @@ theorem AtB_take (S : Nat) (evs : List (List UInt8)) (F n k : Nat) (c : Nat × N
 theorem HInv_crash (S : Nat) (evs : List (List UInt8)) (F A : Nat) (q : PQState) (w' : WState) (r' : RState)
     (hp : w'.persisted = q.w.persisted) (hF : F ≤ evs.length) (h : HInv S evs F A q) :
     HInv S (evs.take F) F A { q with w := w', r := r' } := by
-  refine ⟨h.tail, h.start, h.tailSet, h.headSet, h.readSet, ?_, ?_, ?_, h.totF, h.totA, h.le, h.headLt⟩
+  refine ⟨h.tail, h.start, h.tailSet, h.headSet, h.readSet, ?_, ?_, ?_, h.totF, h.totA, h.le, h.headLt, ?_⟩
   · intro h0
     have := AtB_take S evs F _ A _ h.le hF (h.startPos h0)
     simp only [hp]; exact this
   · intro h0; have := h.head h0; simp only [hp]; exact this
   · have := h.inuse; simp only [hp]; exact this
+  · rcases h.headGe with h0 | h0
+    · exact Or.inl h0
+    · right
+      obtain ⟨e1, e2⟩ := qW_take_prefix S evs F (A - 1) (by have := h.le; omega) hF
+      simp only [qhdr, qpad, qpos, e1, e2]
+      exact h0
 
 /-- **A crash is simulated**: opening the queue from the file after a crash gives a state related to the
     specification state in which the unflushed events are gone. -/
